@@ -21,7 +21,7 @@ func parseThrift(w *W, sch *TSchema, po thrift.Options) *thrift.TypeDescriptor {
 
 // parseThriftFn also returns the function descriptor (response type with the exception field).
 func parseThriftFn(w *W, sch *TSchema, po thrift.Options) (*thrift.TypeDescriptor, *thrift.FunctionDescriptor) {
-	svc, err := po.NewDescritorFromContent(context.Background(), "sim.thrift", sch.IDL, nil, false)
+	svc, err := po.NewDescritorFromContent(context.Background(), "sim.thrift", sch.IDL, sch.Includes, false)
 	if err != nil {
 		w.Failf("harness-idl", nil, "generated IDL does not parse: %v\n%s", err, sch.IDL)
 	}
